@@ -115,3 +115,93 @@ def files_of(case):
 
 def artifact_files(case, art_path):
     return [e for e in case["init"] if e[0] == "file" and (e[1] == art_path or e[1].startswith(art_path + b"/"))]
+
+
+def gen_history(rng, case, nops, allow=("commit", "checkout", "status", "push", "fetch", "edit", "add", "del", "rmart", "run"),
+                wild=0.08):
+    """Mostly-valid histories: tracks just enough abstract state (committed?, artifacts present?,
+    pushed?) to keep commands from failing for boring reasons; with probability `wild` an arbitrary op."""
+    arts = []
+    for sp, st in case["stages"]:
+        for p, fl in st.get("out", []):
+            arts.append((p, fl))
+    files = [e for e in case["init"] if e[0] == "file"]
+    dirs = [p for p, fl in arts if "d" in fl]
+    committed = False
+    pushed = False
+    present = True          # every cached artifact is in the workspace
+    ops = []
+    info = dict(commits=0, edits_between=False, errors_possible=0)
+    dirty = False
+    extra = 0
+    while len(ops) < nops:
+        k = rng.choice(allow)
+        w = rng.random() < wild
+        if w:
+            info["errors_possible"] += 1
+        if k == "commit":
+            if not present and not w:
+                continue
+            ops.append(("commit", rng.choice("lc"), []))
+            if committed and dirty:
+                info["edits_between"] = True
+            committed = True
+            dirty = False
+            info["commits"] += 1
+        elif k == "checkout":
+            if not committed and not w:
+                continue
+            if present and not w and rng.random() < 0.7:
+                continue
+            ops.append(("checkout", rng.choice("lc") if not present else "l", False, []))
+            present = True
+        elif k == "status":
+            ops.append(("status", []))
+        elif k == "push":
+            if not committed and not w:
+                continue
+            ops.append(("push", False, []))
+            pushed = True
+        elif k == "fetch":
+            if not pushed and not w:
+                continue
+            ops.append(("fetch", False, []))
+        elif k == "run":
+            ops.append(("run", False, []))
+        elif k == "edit" and files:
+            if not present and not w:
+                continue
+            e = rng.choice(files)
+            ops.append(("write", e[1], "g:%d:%d" % (rng.randrange(1000), rng.choice(SIZES_Q))))
+            dirty = True
+        elif k == "add" and dirs:
+            if not present and not w:
+                continue
+            d = rng.choice(dirs)
+            extra += 1
+            if rng.random() < 0.3:
+                ops.append(("mkdir", d + b"/newdir%d" % extra))
+            else:
+                ops.append(("write", d + b"/new%d.dat" % extra, "g:%d:%d" % (rng.randrange(1000), rng.choice(SIZES_Q[:6]))))
+            dirty = True
+        elif k == "del" and files:
+            if not present and not w:
+                continue
+            e = rng.choice(files)
+            inside_dir = any(e[1].startswith(d + b"/") for d in dirs)
+            if inside_dir or w:
+                ops.append(("rm", e[1]))
+                files = [f for f in files if f is not e]
+                dirty = True
+        elif k == "rmart" and arts:
+            if not committed and not w:
+                continue
+            if dirty and not w:
+                continue          # would lose uncommitted edits; uninteresting
+            for p, fl in arts:
+                if "s" not in fl:
+                    ops.append(("rm", p))
+            present = False
+    case["ops"] = ops[:nops + 3]
+    case["hist_info"] = info
+    return case
